@@ -626,6 +626,38 @@ func c07Emfile(c *Ctx) {
 	srv.StopWithin(patience)
 }
 
+// emfileEpisode fills the descriptor table so that the server's next accept4 fails with EMFILE, holds that
+// state briefly, then releases everything and restores the limit. Returns how many client sockets were held.
+func emfileEpisode(addr string, parity int) (int, error) {
+	var old syscall.Rlimit
+	if err := syscall.Getrlimit(syscall.RLIMIT_NOFILE, &old); err != nil {
+		return 0, err
+	}
+	spare, _ := os.Open("/dev/null")
+	lim := syscall.Rlimit{Cur: uint64(countFDs() + 10 + parity%2), Max: old.Max}
+	if err := syscall.Setrlimit(syscall.RLIMIT_NOFILE, &lim); err != nil {
+		return 0, err
+	}
+	var held []net.Conn
+	for len(held) < 200 {
+		cn, err := net.DialTimeout("tcp", addr, 2*time.Second)
+		if err != nil {
+			break
+		}
+		held = append(held, cn)
+	}
+	spare.Close()
+	if cn, err := net.DialTimeout("tcp", addr, 2*time.Second); err == nil {
+		held = append(held, cn)
+	}
+	time.Sleep(40 * time.Millisecond)
+	for _, cn := range held {
+		cn.Close()
+	}
+	syscall.Setrlimit(syscall.RLIMIT_NOFILE, &old)
+	return len(held), nil
+}
+
 func countFDs() int {
 	ents, err := os.ReadDir("/proc/self/fd")
 	if err != nil {
